@@ -714,6 +714,77 @@ def key_value_rule(R, lib, cls, f, isf, key):
 
 # -- R5: Python cache key -------------------------------------------------------------------------------
 
+def _self_attr(n):
+    return n.attr if isinstance(n, ast.Attribute) and isinstance(n.value, ast.Name) and n.value.id == 'self' else None
+
+
+def _accumulated_attrs(m, cls, fname, memo, depth=0):
+    """attributes self.X that method fname (or a method it calls through self) grows or folds into itself:
+    self.X.extend/append/insert(...), self.X += ..., self.X = f(..., self.X, ...)"""
+    key = '%s.%s' % (cls, fname)
+    if key in memo:
+        return memo[key]
+    memo[key] = set()
+    f = m.funcs.get(key)
+    if f is None or depth > 5:
+        return set()
+    out = set()
+    for x in ast.walk(f.node):
+        if isinstance(x, ast.Call) and isinstance(x.func, ast.Attribute):
+            a = _self_attr(x.func.value)
+            if a and x.func.attr in ('extend', 'append', 'insert', 'update', 'add'):
+                out.add(a)
+            callee = _self_attr(x.func)
+            if callee:
+                out |= _accumulated_attrs(m, cls, callee, memo, depth + 1)
+        elif isinstance(x, ast.AugAssign):
+            a = _self_attr(x.target)
+            if a:
+                out.add(a)
+        elif isinstance(x, ast.Assign) and len(x.targets) == 1:
+            a = _self_attr(x.targets[0])
+            if a and any(_self_attr(y) == a for y in ast.walk(x.value)):
+                out.add(a)
+        elif isinstance(x, ast.If):
+            # running maximum / minimum: if v > self.X: self.X = v
+            tested = {_self_attr(y) for y in ast.walk(x.test)} - {None}
+            for y in x.body:
+                if isinstance(y, ast.Assign) and len(y.targets) == 1 and _self_attr(y.targets[0]) in tested:
+                    out.add(_self_attr(y.targets[0]))
+    memo[key] = out
+    return out
+
+
+def python_reset_rule(R, m, f):
+    """init_for_year refills the per-year cache: everything the fill helpers accumulate into must be reset between the
+    write of the cache key and the first helper that accumulates into it; otherwise the answer for a year depends on
+    the years asked before."""
+    R.rule('R5-reset', 'ZoneSpecifier.init_for_year resets every attribute its fill helpers accumulate into before they run', floor=2)
+    cls = f.cls
+    memo = {}
+    reset = set()
+    seen_key = False
+    for s in f.node.body:
+        for x in ast.walk(s):
+            if isinstance(x, ast.Assign):
+                for t in x.targets:
+                    a = _self_attr(t)
+                    if a == 'year':
+                        seen_key = True
+                    elif a and seen_key and not any(_self_attr(y) == a for y in ast.walk(x.value)):
+                        reset.add(a)
+        calls = [x for x in ast.walk(s) if isinstance(x, ast.Call) and _self_attr(x.func)]
+        for x in calls:
+            acc = _accumulated_attrs(m, cls, _self_attr(x.func), memo)
+            for a in sorted(acc):
+                c = '%s:%s' % (f.name, a)
+                R.instance('R5-reset', c, m.loc(x), 'accumulated by %s' % _self_attr(x.func))
+                if a not in reset:
+                    R.violation('R5-reset', c, m.loc(x), 'self.%s is grown by %s() but init_for_year does not reset it after the cache key is written: '
+                                'what was computed for the previously cached year stays in it, so the answer depends on the order of the years asked' % (a, _self_attr(x.func)))
+                    reset.add(a)      # report once
+
+
 def python_rules(cfg, R):
     R.rule('R5', 'ZoneSpecifier.init_for_year: no raise is reachable after the cache key self.year is written', floor=1)
     m = py.load(cfg, 'tools/zonedb/zone_specifier.py')
@@ -738,6 +809,7 @@ def python_rules(cfg, R):
                                 'raises after self.year was set to the requested year: the next call for the same year returns '
                                 'as "cached" with empty matches/transitions', detail=list(tr))
     Engine(KR()).run(f.body)
+    python_reset_rule(R, m, f)
     n = sum(1 for x in ast.walk(f.node) if isinstance(x, ast.Assign) and any(isinstance(t, ast.Attribute) and t.attr == 'year' for t in x.targets))
     R.instance('R5', f.name, f.loc, 'cache key writes: %d' % n)
     if n == 0:
@@ -784,6 +856,11 @@ SELFTEST = [
          find='      mYear = year;\n      mNumMatches = 0; // clear cache', replace='      mYear = year + 1;\n      mNumMatches = 0; // clear cache', rule='R4-keyval'),
     dict(id='key-local-renamed-silent', file='src/ace_time/BasicZoneProcessor.h', regex=True,
          find=r'(bool init\(const LocalDate& ld\) const \{.*?      mIsFilled = true;)', replace=lambda m: m.group(1).replace('yearTiny', 'yt').replace('ld.yt()', 'ld.yearTiny()'), expect='silent'),
+    dict(id='python-transitions-not-reset', file='tools/zonedb/zone_specifier.py', find='        self.matches = []\n        self.transitions = []\n', replace='        self.matches = []\n', rule='R5-reset', construct='transitions'),
+    dict(id='python-statistics-not-reset', file='tools/zonedb/zone_specifier.py', find='        self.max_transition_buffer_size = 0\n        self.matches = []', replace='        self.matches = []', rule='R5-reset'),
+    dict(id='python-reset-order-silent', file='tools/zonedb/zone_specifier.py',
+         find='        self.max_transition_buffer_size = 0\n        self.matches = []\n        self.transitions = []\n        self.all_candidate_transitions = []',
+         replace='        self.all_candidate_transitions = []\n        self.transitions = []\n        self.matches = []\n        self.max_transition_buffer_size = 0', expect='silent'),
     dict(id='python-key-before-validation', file='tools/zonedb/zone_specifier.py',
          find="            return\n\n        if self.viewing_months == 12:", replace="            return\n\n        self.year = year\n        if self.viewing_months == 12:", rule='R5'),
     dict(id='renamed-local-silent', file='src/ace_time/TimeZone.h', regex=True, unique=False, nth=0,
